@@ -114,9 +114,7 @@ class ErrorsShapeH(Harness):
             T, _ = compound(c, repo, "T", [P, Q, R], 1, "T")
             st.update(top=T, accept=False, ids=None, n_occ=10)
         elif sh == "shadowed-dup":
-            x1, lo1, hi1 = L("x", "a1")
-            x2 = mk_variable(repo, "x", lo1, hi1)
-            N, _ = compound(c, repo, "N", [x1, x2], 1, "N")
+            N, _ = compound(c, repo, "N", [L("x", "x")[0], L("x", "x")[0]], 1, "N")
             C, _ = compound(c, repo, "C", [L("N", "rn")[0], L("y", "y")[0]], 1, "C")
             T, _ = compound(c, repo, "T", [C, N], 1, "T")
             st.update(top=T, accept=False, ids=None, n_occ=7)
@@ -201,7 +199,7 @@ class ErrorsShapeH(Harness):
             T = C("T", [C("P", [L("R", "rr"), L("x", "x")], 1, "P"), C("Q", [L("P", "rp"), L("y", "y")], 1, "Q"),
                         C("R", [L("Q", "rq"), L("z", "z")], -1, "R")], 1, "T"); acc = False
         elif sh == "shadowed-dup":
-            T = C("T", [C("C", [L("N", "rn"), L("y", "y")], 1, "C"), C("N", [L("x", "a1"), L("x", "a1")], 1, "N")], 1, "T"); acc = False
+            T = C("T", [C("C", [L("N", "rn"), L("y", "y")], 1, "C"), C("N", [L("x", "x"), L("x", "x")], 1, "N")], 1, "T"); acc = False
         elif sh == "fixed-cycle":
             T = C("T", [C("C", [puan.variable("T", (1, 1)), L("b", "b")], 1, "C")], 1, "T", own=(1, 1)); acc = False
         else:
